@@ -111,7 +111,7 @@ static Obs observe(Theo::VM &vm, const Theo::Program &prog) {
 }
 
 struct HistoryStats {
-  int stops = 0, stops_in_callee_or_loop = 0, toggles_after_start = 0, resets_live = 0;
+  int stops = 0, stops_in_callee_or_loop = 0, toggles_after_start = 0, resets_live = 0, queried_after_toggle = 0;
   std::set<int> stop_sites;
   bool stop_on_multi_site_line = false, stop_in_callee = false, toggled_current_line = false, disabled_before_reaching = false;
   bool reached_end = false, absorbing_checked = false, reset_with_state = false;
@@ -138,6 +138,9 @@ static bool run_history(const Trace &tr, const std::vector<Op> &ops, Result &r, 
   std::unique_ptr<Theo::VM> shadow;  // fresh machine created at the last reset (C17 differential)
   Model m;
   bool expect_none = true;  // before execution starts / after a reset the current location is none
+  // the machine is stopped at a site (last resuming call ended there): the location stays that site's until it is resumed
+  bool standing = false;
+  Loc standing_loc;
   std::string hist;
   auto is_site = [&](int ip) { return prog.line_info.count(ip) > 0; };
   auto site_loc = [&](int ip) {
@@ -360,6 +363,23 @@ static bool run_history(const Trace &tr, const std::vector<Op> &ops, Result &r, 
       }
       if (o.depth >= 2) st.stop_in_callee = true;
     }
+    {
+      bool exec_op = op.k == Op::EXECUTE || op.k == Op::SINGLE || op.k == Op::SINGLE_N;
+      if (op.k == Op::RESET)
+        standing = false;
+      else if (exec_op) {
+        standing = stopped_at_site;
+        standing_loc = stop_loc;
+      } else if (standing) {
+        st.queried_after_toggle++;
+        if (o.cur != standing_loc) {
+          if (failf("C06", "stop:current-location-after-toggle",
+                    "stopped at the site of " + standing_loc.first + ":" + std::to_string(standing_loc.second) + " and not resumed since, but after " +
+                        op_str(op) + " getCurrentBreak() reports " + o.cur.first + ":" + std::to_string(o.cur.second) + ctx))
+            return false;
+        }
+      }
+    }
     if (expect_none && (o.cur.first != "none" || o.cur.second != -1)) {
       if (failf(op.k == Op::RESET ? "C17" : "C06", op.k == Op::RESET ? "reset:current-location" : "stop:current-location-before-start",
                 "no instruction executed yet, but getCurrentBreak() reports " + o.cur.first + ":" + std::to_string(o.cur.second) + ctx))
@@ -465,6 +485,7 @@ static void classify(const HistoryStats &st, Result &r, const std::string &prop)
   if (st.toggled_current_line) r.cls("toggle-the-line-stopped-on");
   if (st.disabled_before_reaching) r.cls("disable-before-reaching");
   if (st.toggles_after_start) r.cls("toggle-after-start");
+  if (st.queried_after_toggle) r.cls("location-queried-after-toggle-while-stopped");
   if (st.reached_end) r.cls("reached-end");
   if (st.absorbing_checked) r.cls("call-after-end");
   if (st.resets_live) r.cls("reset-after-progress");
